@@ -7,6 +7,7 @@
 EXTENDS TpLife, TpEvent, Json, IOUtils
 
 Tr == ndJsonDeserialize(IOEnv.TRACE)
+ASSUME VirtualOwner = PVT      \* TpEvent's name for the virtual thread as owner of a registration
 
 Procs == Workers \cup (100..140)
 VARIABLES l,         \* next trace line to consume
@@ -133,12 +134,16 @@ TCallCreate == IsEv("call.create") /\ CallCreate /\ KeepMB
 THookStart  == IsEv("hook.start") /\ HookStart(E.a) /\ KeepMB
 THookStop   == IsEv("hook.stop") /\ HookStop(E.a) /\ KeepMB
 TRetCreate  == IsEv("ret.create") /\ RetCreate(E.rc, E.mem, E.fds, E.thr) /\ KeepMB
+               /\ (E.rc = 0 => E.nmax = E.want)          \* (C11) the pool has the requested number of workers (0 = one per CPU)
 TCallTC     == IsEv("call.threads_create") /\ CallTCreate /\ KeepMB
 TRetTC      == IsEv("ret.threads_create") /\ RetTCreate(E.rc) /\ KeepMB
 TStarting   == IsEv("tcreate.starting") /\ Starting(E.b) /\ SetT(E.b, "STARTING")
 TStartFail  == IsEv("tcreate.failed") /\ StartFailed(E.b) /\ SetT(E.b, "STOP")
 TProc       == \E w \in {"proc.enter", "proc.running", "proc.onstart", "proc.onstop", "proc.ptid0", "proc.stop", "proc.exit"} :
                  /\ IsEv(w) /\ ProcStep(E.a, w)
+                 \* (C05) a worker leaves its loop only through its own shutdown message: everything queued before it
+                 \* (FIFO) was read and run; a loop that ends for any other reason abandons accepted messages
+                 /\ (w = "proc.onstop" => tstate[E.a] = "STOPING")
                  /\ IF w = "proc.running" THEN SetT(E.a, "RUNNING")
                     ELSE IF w = "proc.stop" THEN SetT(E.a, "STOP") ELSE KeepMB
 (* a never-joined thread of an EARLIER pool (its memory is gone: the hook argument maps to no current thread)
